@@ -14,6 +14,7 @@ import SpVerif.Ops.Parser
 import SpVerif.Ops.Uslp
 import SpVerif.Ops.Verificator
 import SpVerif.Ops.DirectiveFixed
+import SpVerif.Ops.DirectiveVar
 import SpVerif.Ops.FileData
 import SpVerif.Ops.MsgToUser
 import SpVerif.Ops.Factory
@@ -40,6 +41,7 @@ def allOps : List (String × Handler) := []
   ++ Ops.Uslp.ops
   ++ Ops.Verificator.ops
   ++ Ops.DirectiveFixed.ops
+  ++ Ops.DirectiveVar.ops
   ++ Ops.FileData.ops
   ++ Ops.MsgToUser.ops
   ++ Ops.Factory.ops
